@@ -176,7 +176,7 @@ func main() {
 	}
 	r.Rule = fmt.Sprintf("every byte string of length 0..%d over the %d-symbol alphabet %q (one representative per class the validators distinguish) and every string of up to %d characters over 18 whole characters (5 ASCII representatives, 13 non-ASCII characters: Unicode letters/digits, low byte or low 7 bits an ASCII letter/digit, case-folding look-alikes, non-BMP, invisible) "+
 		"through ParseQualifiedName/IsQualifiedName/ParseDevice/Validate*Name; every (vendor,class,name) with each part any string of length 1..%d over %q "+
-		"through QualifiedName+ParseQualifiedName; 5 valid beginnings continued by every string of <=5 (6) ASCII tokens; every string of 1..3 alphabet symbols with one symbol stretched to a run of 64..65537 bytes; oracle = hand-written grammar. Cases are distinct by construction (mixed-radix index); "+
+		"through QualifiedName+ParseQualifiedName; 8 valid beginnings continued by every string of <=5 (6) ASCII tokens; every string of 1..3 alphabet symbols with one symbol stretched to a run of 64..65537 bytes; oracle = hand-written grammar. Cases are distinct by construction (mixed-radix index); "+
 		"non-trivial = the string contains both separators (the grammar gets past the split) or is a composed triple", L, len(alphabet), alphabet, map[bool]int{false: 5, true: 6}[r.Thorough()], K, partAlphabet)
 	r.Assumptions = []string{"bytes outside the alphabet behave like their class representative (letter, digit, each punctuation, control, UTF-8 lead/continuation, invalid byte)",
 		fmt.Sprintf("strings longer than %d / parts longer than %d are not enumerated", L, K)}
@@ -233,12 +233,12 @@ func main() {
 	// continuations: a valid beginning (vendor/class=, vendor/, a whole valid name) followed by every
 	// string of up to 5 (thorough 6) ASCII tokens - strings twice as long as the plain enumeration
 	// reaches, e.g. a repeated qualifier (a/a=a/a=a), a second separator after a valid name
-	cont := []string{"a", "0", "/", "=", "-", ".", ":", "_"}
+	cont := []string{"a", "Z", "0", "/", "=", "-", ".", ":", "_"}
 	CL := 5
 	if r.Thorough() {
 		CL = 6
 	}
-	for _, pre := range []string{"a/a=", "a0/b-c=", "a/", "a/a=a", "v.w/c_d=n:1"} {
+	for _, pre := range []string{"a/a=", "a0/b-c=", "a/", "a/a=a", "v.w/c_d=n:1", "Z.a/", "aZ.Z-a/Z.z=", "A_b.C/"} {
 		for n := 1; n <= CL && !r.Expired(); n++ {
 			total := pow(len(cont), n)
 			r.ParallelL(total, func(i int64, l *hx.Local) {
@@ -258,7 +258,7 @@ func main() {
 			})
 		}
 	}
-	r.Extra["continuations_of_valid_beginnings"] = fmt.Sprintf("5 beginnings x every string of <=%d tokens over %q", CL, cont)
+	r.Extra["continuations_of_valid_beginnings"] = fmt.Sprintf("8 beginnings (lower and upper case, dots, underscores) x every string of <=%d tokens over %q", CL, cont)
 	// long inputs: every string of 1..3 alphabet symbols with one symbol stretched to a run, of
 	// lengths around the sizes at which buffers, quoting limits and length fields change
 	runs := []int{64, 129, 257, 1025, 4097, 65537}
